@@ -136,7 +136,7 @@ def run(ck):
             elif name == "RemoteValueString":
                 variants = [{"value_type": t} for t in ("string", "latin_1")]
             elif name == "RemoteValueRaw":
-                variants = [{"payload_length": n} for n in (0, 1, 2, 4)]
+                variants = [{"payload_length": n} for n in (0, 1, 2, 4, 14, 253, 254)]
             elif name == "RemoteValueScaling":
                 variants = [{}, {"range_from": 0, "range_to": 255}, {"range_from": 100, "range_to": 0}]
             elif name == "RemoteValueByLength":
